@@ -2,30 +2,36 @@
    What is proved is about lists and tags REGENERATED FROM THE SOURCE on every run (Gen/EffectsConstants.v,
    Gen/TracerConstants.v): which primitive operations the tracer applies to the program's objects, the try/except
    of the profiler callback, and the finally block of the tracing context.  The classification of primitives into
-   hook-free / hook-invoking is an assumption about CPython, validated by the tripwire differential runs. *)
+   hook-free / hook-invoking is an assumption about CPython, validated by the tripwire differential runs.
+   A primitive is (op, on, arg, guard, gon): WHAT is applied (callee / method / iteration / truth test) to WHICH object
+   (its origin: a parameter, an attribute chain, the result of a call, an element of an iteration ...), under which
+   exact-type guard on which object - independent of the names of locals, of helper functions and of statement order
+   (Model/Effects.v, harness/extract_effects.py).  The lists are generated sorted and without duplicates: they are SETS,
+   and get_type_prims now also contains what get_dict_type and private helpers do (they are walked through). *)
 From MT Require Import Types Effects EffectsFacts.
 
 (* "computes the same results and output with and without tracing" for arbitrary programs is a statement about
    CPython and is not expressible here; it is exercised by the differential runs.  Kept visible: *)
 Definition C03_full_informal : Prop :=
-  forallb hook_free_prim (get_type_prims ++ get_dict_type_prims) = true
+  forallb hook_free_prim get_type_prims = true
   /\ forallb hook_free_lookup lookup_prims = true                 (* FALSE today: kf_lookup_getattr *)
   /\ (forall h, callback h = ONormal)                             (* false for BaseException, by design *)
   /\ (forall body fl, trace_calls_exit body fl = Ctx 0 1 body).
 
-(* Type collection applies only hook-free primitives to traced values: type(), issubclass on real types, and the
-   container protocol under an exact-builtin-type guard.  No isinstance, getattr, hash, ==, bool, repr. *)
+(* Type collection applies only hook-free primitives to traced values: type(), issubclass on results of type(), the
+   container protocol (iteration, len, keys/values/items and iteration of those views) under an exact-builtin-type guard
+   ON THE VERY OBJECT, truth tests of builtin bool / int results only.  No isinstance, getattr, hash, ==, bool, repr. *)
 Theorem get_type_runs_no_user_code_partial :
-  forallb hook_free_prim (get_type_prims ++ get_dict_type_prims) = true.
+  forallb hook_free_prim get_type_prims = true.
 Proof. exact get_type_prims_hook_free. Qed.
 Print Assumptions get_type_runs_no_user_code_partial.
 
-(* Function lookup: every primitive is hook-free EXCEPT exactly the five known sites (finding kf_lookup_getattr):
-   three isinstance tests on the class attribute found by getattr_static, and the two getattr calls of _has_code. *)
+(* Function lookup: every primitive is hook-free EXCEPT exactly the known sites (finding kf_lookup_getattr): the two
+   getattr calls of _has_code (__code__, __wrapped__) on each of the eight kinds of lookup candidate, and the three
+   isinstance tests on the class attribute found by getattr_static (Effects.known_hooking_sites, spelled out in
+   ex_c03_nonvacuous below). *)
 Theorem lookup_hooks_only_at_known_sites_partial :
-  filter (fun p => negb (hook_free_lookup p)) lookup_prims =
-  ["get_func_in_mro:isinstance"; "get_func_in_mro:isinstance"; "get_func_in_mro:isinstance";
-   "_has_code:getattr"; "_has_code:getattr"]%string.
+  filter (fun p => negb (hook_free_lookup p)) lookup_prims = known_hooking_sites.
 Proof. exact lookup_hooking_prims_exactly. Qed.
 Print Assumptions lookup_hooks_only_at_known_sites_partial.
 
@@ -52,5 +58,40 @@ Print Assumptions trace_calls_always_restores_and_flushes_once.
 Example ex_c03_nonvacuous :
   callback (ORaises EExceptionSub) = ONormal /\ callback (ORaises EBaseOnly) = ORaises EBaseOnly
   /\ trace_calls_exit (ORaises EExceptionSub) (ORaises EExceptionSub) = Ctx 0 1 (ORaises EExceptionSub)
-  /\ hook_free_prim "isinstance" = false /\ hook_free_prim "iter(obj)" = false /\ hook_free_prim "iter(obj)@list" = true.
-Proof. vm_compute. repeat split; reflexivity. Qed.
+  /\ hook_free_prim ("builtin:isinstance", "param:obj", "builtin:list", "", "") = false
+  /\ hook_free_prim ("iter", "param:obj", "", "", "") = false
+  /\ hook_free_prim ("iter", "param:obj", "", "list", "param:obj") = true
+  /\ hook_free_prim ("iter", "elem(param:obj)", "", "list", "param:obj") = false      (* a guard on another object *)
+  /\ hook_free_prim ("builtin:len", "param:obj", "", "", "") = false
+  /\ hook_free_prim ("builtin:issubclass", "param:obj", "", "", "") = false           (* not a result of type() *)
+  /\ hook_free_prim ("builtin:tuple", "param:obj", "", "", "") = false
+  /\ hook_free_prim ("truth", "param:obj", "", "", "") = false
+  /\ hook_free_prim ("()", "param:obj.default_factory", "", "defaultdict", "param:obj") = false
+  /\ hook_free_lookup ("builtin:isinstance", "elem(call(param:frame.f_globals.values))", "builtin:type", "", "") = false
+  /\ hook_free_lookup ("truth", "call(param:frame.f_locals.get)", "", "", "") = false
+  /\ hook_free_lookup (".values", "param:frame.f_globals", "", "", "") = true
+  (* the known sites, spelled out; the lists are of non-trivial size and do contain the container protocol *)
+  /\ known_hooking_sites =
+  [("builtin:getattr", "call(builtin:getattr)", "'__code__'", "", "");
+   ("builtin:getattr", "call(builtin:getattr)", "'__wrapped__'", "", "");
+   ("builtin:getattr", "call(import:inspect.getattr_static).__func__", "'__code__'", "", "");
+   ("builtin:getattr", "call(import:inspect.getattr_static).__func__", "'__wrapped__'", "", "");
+   ("builtin:getattr", "call(import:inspect.getattr_static).func", "'__code__'", "", "");
+   ("builtin:getattr", "call(import:inspect.getattr_static).func", "'__wrapped__'", "", "");
+   ("builtin:getattr", "call(import:typing.cast)", "'__code__'", "", "");
+   ("builtin:getattr", "call(import:typing.cast)", "'__wrapped__'", "", "");
+   ("builtin:getattr", "call(param:frame.f_globals.get)", "'__code__'", "", "");
+   ("builtin:getattr", "call(param:frame.f_globals.get)", "'__wrapped__'", "", "");
+   ("builtin:getattr", "elem(call(<loop>.f_back.f_locals.values))", "'__code__'", "", "");
+   ("builtin:getattr", "elem(call(<loop>.f_back.f_locals.values))", "'__wrapped__'", "", "");
+   ("builtin:getattr", "elem(call(param:frame.f_back.f_locals.values))", "'__code__'", "", "");
+   ("builtin:getattr", "elem(call(param:frame.f_back.f_locals.values))", "'__wrapped__'", "", "");
+   ("builtin:getattr", "elem(call(param:frame.f_locals.values))", "'__code__'", "", "");
+   ("builtin:getattr", "elem(call(param:frame.f_locals.values))", "'__wrapped__'", "", "");
+   ("builtin:isinstance", "call(import:inspect.getattr_static)", "(builtin:classmethod,builtin:staticmethod)", "", "");
+   ("builtin:isinstance", "call(import:inspect.getattr_static)", "builtin:property", "", "");
+   ("builtin:isinstance", "call(import:inspect.getattr_static)", "import:monkeytype.compat.cached_property", "", "")]
+  /\ 30 <= List.length get_type_prims /\ 40 <= List.length lookup_prims
+  /\ existsb (fun p => String.eqb (p_op p) "iter" && String.eqb (p_on p) "param:obj") get_type_prims = true
+  /\ existsb (fun p => String.eqb (p_op p) "builtin:len" && String.eqb (p_on p) "param:obj") get_type_prims = true.
+Proof. vm_compute. repeat split; repeat constructor. Qed.
